@@ -115,7 +115,9 @@ def valid_transmissions(trans, hist, adj, I0, tmin, inducing=1, from_status=0, t
         if prev is not None and t < prev: return 'transmission list not time-ordered at entry %d' % k
         prev = t
         if s is None:
-            if g not in I0 or not C.close(t, float(tmin)):
+            # discrete-time simulators date an entry by the contact step: the change happens at t+1,
+            # so the source-less entries of the initial nodes are at tmin-1
+            if g not in I0 or not C.close(t, float(tmin) - (1 if discrete else 0)):
                 return 'entry %d (%r) has no source but %d is not an initially infected node at tmin' % (k, (t, s, g), g)
             continue
         if g not in adj.get(s, ()):
